@@ -59,6 +59,26 @@ def decode_groups(F):
     return grp, idx
 
 
+def alternative_bindings(labels, grp, idx, limit=16):
+    lgrp, lidx = decode_labels(labels)
+    if lgrp == grp and lidx == idx:
+        return []
+    classes = sorted(set(lgrp))
+    out, seen = [], {repr((grp, idx))}
+    import itertools
+    subsets = [set(classes)] + [set(c) for k in range(1, len(classes)) for c in itertools.combinations(classes, k)]
+    for by_label in subsets[:limit]:
+        raw = [("L", lgrp[v]) if lgrp[v] in by_label else ("G", grp[v]) for v in range(len(labels))]
+        number = {}
+        g2 = [number.setdefault(x, len(number) + 1) for x in raw]
+        i2 = [lidx[v] if lgrp[v] in by_label else idx[v] for v in range(len(labels))]
+        key = repr((g2, i2))
+        if key not in seen:
+            seen.add(key)
+            out.append({"grp": g2, "idx": i2})
+    return out
+
+
 def clauses_of(F):
     return [[int(l) for l in c] for c in F.clauses()]
 
@@ -87,6 +107,13 @@ def formula(F, with_header=False):
         binding = "groups"
     rec = {"nvars": int(F.number_of_variables()), "labels": labels, "grp": grp, "idx": idx,
            "binding": binding}
+    if binding == "groups":
+        # other bindings of identifiers to named variables: internal grouping is not what a property speaks
+        # about.  Through the names alone, and hybrids (names for some families of names, groups for the
+        # others: a block split level by level next to mappings created level by level, say).
+        alts = alternative_bindings(labels, grp, idx)
+        if alts:
+            rec["alt"] = alts
     if is_opb(F):
         rec["cls"] = "OPB"
         rec["constraints"] = constraints_of(F)
